@@ -9,7 +9,7 @@ from pyvc.spec import And, Or, Not, Implies, Iff, forall, len_
 try:
     import z3
     from pyvc.models import sched as MS
-    from pyvc.values import SymSeq, SymObj, Builtin, Unsupported, Opaque
+    from pyvc.values import BoundMethod, SymSeq, SymObj, Builtin, Unsupported, Opaque
     from pyvc.interp import PathEnd, Namespace
 except Exception:  # pragma: no cover
     z3 = MS = None
@@ -48,6 +48,15 @@ class ProgressModel:
     def on_delete_item(self, it, seq, idx, node):
         TOP[0].on_delete(it, node, seq, idx)
         return True
+
+    def call(self, it, fn, args, kwargs, node, star):
+        # has_reached / has_passed see _add_trigger through its contract (AddTrigger): the call is recorded
+        if getattr(TOP[0], "wrapper_of_add_trigger", False) and isinstance(fn, BoundMethod) and fn.func.qualname == PROGRESS + "._add_trigger":
+            it.p.ghost.setdefault("add_trigger_calls", []).append((fn.self_val, tuple(args), dict(kwargs)))
+            r = Opaque("triggered time")
+            it.p.ghost.setdefault("add_trigger_results", []).append(r)
+            return r
+        return NotImplemented
 
     def havoc_field(self, it, obj, attr, cur):
         if attr == "_futures":
@@ -303,7 +312,82 @@ class AddTrigger(_P):
                                     "trigger spec with the awaited future")
 
 
-CONTRACTS = [TriggeredTime(), ProgressSet(), AddTrigger()]
+class _Wait(_P):
+    """Progress.has_reached / has_passed(target, shift): exactly one _add_trigger(target, shift, needs_to_pass) on the same
+    Progress, needs_to_pass False for has_reached ('at or after') and True for has_passed ('strictly after' -- what C01's wait
+    for the producers needs), and its result is returned"""
+    wrapper_of_add_trigger = True
+    needs_to_pass = None
+    variants = [{"shift_none": False}, {"shift_none": True}]
+
+    def make_args(self, mk, shift_none=False):
+        a = mk.s.sched.alg
+        self._tg = mk.const("target", a.T)
+        self._sh = None if shift_none else mk.const("shift", a.D)
+        self._obj = mk.blank(PROGRESS)
+        return {"self": self._obj, "target": self._tg, "shift": self._sh}
+
+    def requires(self, A):
+        return True
+
+    def split_post(self, A, result):
+        calls = self._p.ghost.get("add_trigger_calls", [])
+        out = {"one_add_trigger_call": len(calls) == 1}
+        if len(calls) == 1:
+            obj, args, kwargs = calls[0]
+            names = ["target", "shift", "needs_to_pass"]
+            got = dict(zip(names, args), **kwargs)
+            same = lambda x, y: (x is y) or (is_z3(x) and is_z3(y) and x.eq(y))  # noqa: E731
+            out["on_this_progress_with_the_callers_target_and_shift"] = obj is self._obj and same(got.get("target"), self._tg) \
+                and (got.get("shift") is None if self._sh is None else same(got.get("shift"), self._sh))
+            out["strictness"] = got.get("needs_to_pass") is self.needs_to_pass
+            out["result_handed_on"] = result is self._p.ghost["add_trigger_results"][0]
+        return out
+
+    def ensures(self, A, result):
+        return And(*self.split_post(A, result).values())
+
+    def native_search(self, budget):
+        for prog, target in ((3, 3), (3, 4), (4, 3)):
+            yield {"progress": prog, "target": target}
+
+    def native_call(self, m):
+        if "progress" not in m:
+            return True, "symbolic counter-models are not replayed (the native search is)"
+        import asyncio
+        from mosaik.progress import Progress
+        from mosaik.tiered_time import TieredTime
+        loop = asyncio.new_event_loop()
+        meth = self.target.rsplit(".", 1)[1]
+
+        async def main():
+            pr = Progress(TieredTime(m["progress"]))
+            t = asyncio.ensure_future(getattr(pr, meth)(TieredTime(m["target"])))
+            for _ in range(3):
+                await asyncio.sleep(0)
+            done = t.done()
+            if not done:
+                t.cancel()
+            return done
+        try:
+            done = loop.run_until_complete(main())
+        finally:
+            loop.close()
+        exp = m["progress"] > m["target"] if self.needs_to_pass else m["progress"] >= m["target"]
+        return done == exp, f"Progress at {m['progress']}: {meth}({m['target']}) {'returns' if done else 'waits'} (expected: {'returns' if exp else 'waits'})"
+
+
+class HasReached(_Wait):
+    target = PROGRESS + ".has_reached"
+    needs_to_pass = False
+
+
+class HasPassed(_Wait):
+    target = PROGRESS + ".has_passed"
+    needs_to_pass = True
+
+
+CONTRACTS = [TriggeredTime(), ProgressSet(), AddTrigger(), HasReached(), HasPassed()]
 
 
 class WaitPostStable(Lemma):
